@@ -55,6 +55,9 @@ WORLDS = {
     "W64-224": (["FP_PRIME=224"], ""),
     "W64-384": (["FP_PRIME=384"], ""),
     "W64-521": (["FP_PRIME=521"], ""),
+    # Karatsuba levels switched on (the default builds compile the Karatsuba code with zero levels)
+    "W64-karat": (["FP_KARAT=1", "BN_KARAT=2", "FB_KARAT=1"], ""),
+    "W8-karat": (["WSIZE=8", "FP_PRIME=16", "BN_PRECI=64", "FB_POLYN=17", "RAND=CALL", "FP_KARAT=1", "BN_KARAT=1", "FB_KARAT=1"], ""),
     # the other selectable hash functions behind md_map / md_hmac / md_kdf / md_mgf
     "W64-md-sh224": (["MD_METHD=SH224"], ""),
     "W64-md-sh384": (["MD_METHD=SH384"], ""),
